@@ -39,21 +39,21 @@ def InDie (die : Rect α) (x y : α) : Prop := die.xmin ≤ x ∧ x ≤ die.xmax
     `Σ_m a[m][c] ≤ 1` up to the solver's constraint tolerance `tol`, every centre respects its bounds (the die's
     bounding box).  (For constant entries — fixed modules, frozen ratios — these are facts about the offered
     allocation rather than about the solver; they are part of the same monitored predicate.) -/
-structure SolverPost (ans : Answer α) (tol : α) (die : Rect α) (mods : List (Module α)) (ncells : Nat) : Prop where
+structure SolverPost (ans : Answer α) (tol : α) (die : Rect α) (mods : List (Glb.Module α)) (ncells : Nat) : Prop where
   bounds : ∀ m ∈ mods, ∀ c < ncells, 0 ≤ ans.a m.name c ∧ ans.a m.name c ≤ 1
   rows : ∀ c < ncells, (mods.map fun m => ans.a m.name c).sum ≤ 1 + tol
   centres : ∀ m ∈ mods, InDie die (ans.x m.name) (ans.y m.name)
 
 /-- FRAME's construction of the GEKKO model for a fixed module `f` (`optimize_allocation` 288-291, 308-312):
     its ratios and its centre are constants, not variables, so the "answer" reads them back unchanged. -/
-structure ConstRespect (ans : Answer α) (offered : List (RectAlloc α)) (f : Module α) : Prop where
+structure ConstRespect (ans : Answer α) (offered : List (RectAlloc α)) (f : Glb.Module α) : Prop where
   a : ∀ c v, getA offered f c = some v → ans.a f.name c = v
   x : ans.x f.name = f.cx
   y : ans.y f.name = f.cy
 
 /-- the offered allocation treats `f` as a fixed module: every cell is entirely its own or not its own at all
     (`get_a` is 1 or 0).  Established by `create_initial_allocation` and kept by refinement and by `fixed_kept`. -/
-def OfferedFixed (offered : List (RectAlloc α)) (f : Module α) : Prop :=
+def OfferedFixed (offered : List (RectAlloc α)) (f : Glb.Module α) : Prop :=
   ∀ c v, getA offered f c = some v → v = 1 ∨ v = 0
 
 /-- the image of a list of rectangles under `x ↦ sx·x + tx`, `y ↦ sy·y + ty` on the centres, with `sx, sy = ±1`:
@@ -69,8 +69,8 @@ def IsCentroid (rs : List (Rect α)) (cx cy : α) : Prop :=
 /-! ### cells: returned ⊆ offered -/
 
 /-- The rectangles of the returned allocation are a sub-list (same order, some dropped) of the offered cells. -/
-theorem extract_cells_subset (ans : Answer α) (εA thr : α) (mods : List (Module α)) (cells : List (Rect α))
-    (al : List (RectAlloc α)) (ms : List (Module α)) (h : extractSolution ans εA thr mods cells = .ok (al, ms)) :
+theorem extract_cells_subset (ans : Answer α) (εA thr : α) (mods : List (Glb.Module α)) (cells : List (Rect α))
+    (al : List (RectAlloc α)) (ms : List (Glb.Module α)) (h : extractSolution ans εA thr mods cells = .ok (al, ms)) :
     (al.map (·.rect)).Sublist cells := by
   obtain ⟨h1, _⟩ := extractSolution_ok ans εA thr mods cells al ms h
   obtain ⟨rfl, _⟩ := allocationCtor_ok εA _ _ h1
@@ -78,16 +78,16 @@ theorem extract_cells_subset (ans : Answer α) (εA thr : α) (mods : List (Modu
 
 /-- Hence non-overlap and inside-the-die are inherited from the offered cells, whatever the solver answered:
     for any pairwise relation `R` (e.g. `areaOverlap ≤ εA`) and any predicate `Q` (e.g. `isInside die`). -/
-theorem extract_cells_feasible (ans : Answer α) (εA thr : α) (mods : List (Module α)) (cells : List (Rect α))
-    (al : List (RectAlloc α)) (ms : List (Module α)) (h : extractSolution ans εA thr mods cells = .ok (al, ms))
+theorem extract_cells_feasible (ans : Answer α) (εA thr : α) (mods : List (Glb.Module α)) (cells : List (Rect α))
+    (al : List (RectAlloc α)) (ms : List (Glb.Module α)) (h : extractSolution ans εA thr mods cells = .ok (al, ms))
     (R : Rect α → Rect α → Prop) (Q : Rect α → Prop) (hR : cells.Pairwise R) (hQ : ∀ r ∈ cells, Q r) :
     (al.map (·.rect)).Pairwise R ∧ ∀ r ∈ al.map (·.rect), Q r := by
   have hs := extract_cells_subset ans εA thr mods cells al ms h
   exact ⟨hR.sublist hs, fun r hr => hQ r (hs.subset hr)⟩
 
 /-- The instance used by the property: cells pairwise overlapping by at most `εA` and inside the die. -/
-theorem extract_cells_disjoint_inside (ans : Answer α) (εA thr : α) (die : Rect α) (mods : List (Module α))
-    (cells : List (Rect α)) (al : List (RectAlloc α)) (ms : List (Module α))
+theorem extract_cells_disjoint_inside (ans : Answer α) (εA thr : α) (die : Rect α) (mods : List (Glb.Module α))
+    (cells : List (Rect α)) (al : List (RectAlloc α)) (ms : List (Glb.Module α))
     (h : extractSolution ans εA thr mods cells = .ok (al, ms))
     (hR : cells.Pairwise fun a b => a.areaOverlap b ≤ εA) (hQ : ∀ r ∈ cells, r.isInside die = true) :
     (al.map (·.rect)).Pairwise (fun a b => a.areaOverlap b ≤ εA) ∧ ∀ r ∈ al.map (·.rect), r.isInside die = true :=
@@ -97,8 +97,8 @@ theorem extract_cells_disjoint_inside (ans : Answer α) (εA thr : α) (die : Re
 
 /-- Without any assumption on the solver: every listed ratio is in `[0,1]` and exceeds `1 - thr`, no returned cell
     is empty, the allocation is not empty (otherwise the `Allocation` constructor raised). -/
-theorem extract_ratio_range (ans : Answer α) (εA thr : α) (mods : List (Module α)) (cells : List (Rect α))
-    (al : List (RectAlloc α)) (ms : List (Module α)) (h : extractSolution ans εA thr mods cells = .ok (al, ms)) :
+theorem extract_ratio_range (ans : Answer α) (εA thr : α) (mods : List (Glb.Module α)) (cells : List (Rect α))
+    (al : List (RectAlloc α)) (ms : List (Glb.Module α)) (h : extractSolution ans εA thr mods cells = .ok (al, ms)) :
     al ≠ [] ∧ ∀ ra ∈ al, ra.alloc ≠ [] ∧ ∀ p ∈ ra.alloc, 0 ≤ p.2 ∧ p.2 ≤ 1 ∧ 1 - thr < p.2 := by
   obtain ⟨h1, _⟩ := extractSolution_ok ans εA thr mods cells al ms h
   obtain ⟨rfl, hne, hr, _, _⟩ := allocationCtor_ok εA _ _ h1
@@ -109,11 +109,21 @@ theorem extract_ratio_range (ans : Answer α) (εA thr : α) (mods : List (Modul
   obtain ⟨m, _, _, _, hlt⟩ := (mem_cellAlloc ans thr mods c p.1 p.2).mp hp
   exact ⟨h0, h1', hlt⟩
 
+theorem forall₂_mem_right {β γ : Type} {R : β → γ → Prop} {l1 : List β} {l2 : List γ} (h : List.Forall₂ R l1 l2)
+    (b : γ) (hb : b ∈ l2) : ∃ a ∈ l1, R a b := by
+  induction h with
+  | nil => simp at hb
+  | cons hab _ ih =>
+    rcases List.mem_cons.mp hb with rfl | hb'
+    · exact ⟨_, by simp, hab⟩
+    · obtain ⟨a, ha, hr⟩ := ih hb'; exact ⟨a, by simp [ha], hr⟩
+
 /-- every updated module carries the answer's centre and keeps its name and flags. -/
-theorem updateModule_fields (ans : Answer α) (m m' : Module α) (h : updateModule ans m = some m') :
+theorem updateModule_fields (ans : Answer α) (m m' : Glb.Module α) (h : updateModule ans m = some m') :
     m'.cx = ans.x m.name ∧ m'.cy = ans.y m.name ∧ m'.name = m.name ∧ m'.hard = m.hard ∧ m'.fixed = m.fixed ∧
       m'.flip = m.flip := by
   unfold updateModule at h
+  dsimp only at h
   split at h
   · split at h
     · exact absurd h (by simp)
@@ -122,8 +132,8 @@ theorem updateModule_fields (ans : Answer α) (m m' : Module α) (h : updateModu
 
 /-- Under `SolverPost`: every listed ratio is in `[0,1]`, every returned cell's total is at most `1 + tol`, every
     module centre lies in the die.  (Uses: ratios ≥ 0, rows, centres.) -/
-theorem extract_ratios (ans : Answer α) (εA thr tol : α) (die : Rect α) (mods : List (Module α))
-    (cells : List (Rect α)) (al : List (RectAlloc α)) (ms : List (Module α))
+theorem extract_ratios (ans : Answer α) (εA thr tol : α) (die : Rect α) (mods : List (Glb.Module α))
+    (cells : List (Rect α)) (al : List (RectAlloc α)) (ms : List (Glb.Module α))
     (post : SolverPost ans tol die mods cells.length)
     (h : extractSolution ans εA thr mods cells = .ok (al, ms)) :
     (∀ ra ∈ al, ∀ p ∈ ra.alloc, 0 ≤ p.2 ∧ p.2 ≤ 1) ∧
@@ -142,14 +152,7 @@ theorem extract_ratios (ans : Answer α) (εA thr tol : α) (die : Rect α) (mod
     intro m hm; exact (post.bounds m hm c hlt).1
   · have hf := updateModules_spec ans mods ms h2
     intro m' hm'
-    obtain ⟨m, hm, hu⟩ : ∃ m ∈ mods, updateModule ans m = some m' := by
-      clear h h1 h2 post hr
-      induction hf with
-      | nil => simp at hm'
-      | cons hab _ ih =>
-        rcases List.mem_cons.mp hm' with rfl | hm''
-        · exact ⟨_, by simp, hab⟩
-        · obtain ⟨m, hm, hu⟩ := ih hm''; exact ⟨m, by simp [hm], hu⟩
+    obtain ⟨m, hm, hu⟩ := forall₂_mem_right hf m' hm'
     obtain ⟨hx, hy, _⟩ := updateModule_fields ans m m' hu
     rw [hx, hy]; exact post.centres m hm
 
@@ -166,7 +169,7 @@ theorem forall₂_get {β γ : Type} {R : β → γ → Prop} {l1 : List β} {l2
 
 /-- In a cell where module `f` has ratio 1, a non-negative answer whose row sums to at most `1 + tol` with
     `tol ≤ 1 - thr` and `0 < thr` lists `f` alone, with ratio 1. -/
-theorem cellAlloc_owned (ans : Answer α) (thr tol : α) (mods : List (Module α)) (c : Nat) (f : Module α)
+theorem cellAlloc_owned (ans : Answer α) (thr tol : α) (mods : List (Glb.Module α)) (c : Nat) (f : Glb.Module α)
     (hthr : 0 < thr) (htol : tol ≤ 1 - thr) (hf : f ∈ mods) (h1 : ans.a f.name c = 1)
     (hnn : ∀ m ∈ mods, 0 ≤ ans.a m.name c) (hrow : (mods.map fun m => ans.a m.name c).sum ≤ 1 + tol) :
     cellAlloc ans thr mods c = [(f.name, 1)] := by
@@ -189,7 +192,7 @@ theorem cellAlloc_owned (ans : Answer α) (thr tol : α) (mods : List (Module α
   rw [List.filter_append, List.filter_cons, e1, e2, e3]
   simp [h1]
 
-theorem getA_isSome (offered : List (RectAlloc α)) (f : Module α) (c : Nat) (hc : c < offered.length) :
+theorem getA_isSome (offered : List (RectAlloc α)) (f : Glb.Module α) (c : Nat) (hc : c < offered.length) :
     ∃ v, getA offered f c = some v := by
   unfold getA
   rw [List.getElem?_eq_getElem hc]
@@ -204,16 +207,16 @@ theorem getA_isSome (offered : List (RectAlloc α)) (f : Module α) (c : Nat) (h
     1. the module at the same position in the returned netlist has the same rectangles and the same centre;
     2. every returned cell that lists `f` lists exactly `{f ↦ 1}`;
     3. every offered cell owned by `f` (`get_a = 1`) is returned (not dropped), with `{f ↦ 1}`. -/
-theorem fixed_kept (ans : Answer α) (εA thr tol : α) (die : Rect α) (mods : List (Module α))
-    (offered : List (RectAlloc α)) (al : List (RectAlloc α)) (ms : List (Module α)) (f : Module α)
+theorem fixed_kept (ans : Answer α) (εA thr tol : α) (die : Rect α) (mods : List (Glb.Module α))
+    (offered : List (RectAlloc α)) (al : List (RectAlloc α)) (ms : List (Glb.Module α)) (f : Glb.Module α)
     (hthr : 0 < thr) (htol0 : 0 ≤ tol) (htol : tol ≤ 1 - thr) (hf : f ∈ mods) (hfix : f.fixed = true)
     (post : SolverPost ans tol die mods offered.length)
     (cr : ConstRespect ans offered f) (ofx : OfferedFixed offered f)
     (h : extractSolution ans εA thr mods (offered.map (·.rect)) = .ok (al, ms)) :
-    (∀ i f', mods[i]? = some f → ms[i]? = some f' →
+    (∀ (i : Nat) (f' : Glb.Module α), mods[i]? = some f → ms[i]? = some f' →
         f'.rects = f.rects ∧ f'.cx = f.cx ∧ f'.cy = f.cy ∧ f'.name = f.name ∧ f'.fixed = true) ∧
     (∀ ra ∈ al, ∀ v, (f.name, v) ∈ ra.alloc → ra.alloc = [(f.name, 1)]) ∧
-    (∀ c ra0, offered[c]? = some ra0 → getA offered f c = some 1 →
+    (∀ (c : Nat) (ra0 : RectAlloc α), offered[c]? = some ra0 → getA offered f c = some 1 →
         ({ rect := ra0.rect, alloc := [(f.name, 1)], depth := 0 } : RectAlloc α) ∈ al) := by
   obtain ⟨h1, h2⟩ := extractSolution_ok ans εA thr mods _ al ms h
   obtain ⟨rfl, _, _, _, _⟩ := allocationCtor_ok εA _ _ h1
@@ -278,7 +281,7 @@ theorem recenter_isSome_iff (cx cy : α) (rs : List (Rect α)) :
 /-- **Movable hard modules are only translated or mirrored**, for every answer whatsoever: the new rectangles are
     the image of the old ones under a translation composed with a mirror in x and/or y (mirror only if the module
     is flippable), and the module's reported centre is their centroid. -/
-theorem flip_rigid (ans : Answer α) (m m' : Module α) (hh : m.hard = true) (hnf : m.fixed = false)
+theorem flip_rigid (ans : Answer α) (m m' : Glb.Module α) (hh : m.hard = true) (hnf : m.fixed = false)
     (h : updateModule ans m = some m') :
     RigidImage m.rects m'.rects m.flip ∧ IsCentroid m'.rects m'.cx m'.cy ∧
       m'.cx = ans.x m.name ∧ m'.cy = ans.y m.name := by
@@ -317,10 +320,10 @@ theorem flip_rigid (ans : Answer α) (m m' : Module α) (hh : m.hard = true) (hn
     (both `1` when the module may not flip). -/
 theorem rigid_shapes_offsets (rs rs' : List (Rect α)) (fl : Bool) (h : RigidImage rs rs' fl) :
     rs'.length = rs.length ∧
-    (∀ i r r', rs[i]? = some r → rs'[i]? = some r' →
+    (∀ (i : Nat) (r r' : Rect α), rs[i]? = some r → rs'[i]? = some r' →
         r'.w = r.w ∧ r'.h = r.h ∧ r'.region = r.region ∧ r'.fixed = r.fixed ∧ r'.hard = r.hard) ∧
     ∃ sx sy : α, (sx = 1 ∨ sx = -1) ∧ (sy = 1 ∨ sy = -1) ∧ (fl = false → sx = 1 ∧ sy = 1) ∧
-      ∀ i j ri rj ri' rj', rs[i]? = some ri → rs[j]? = some rj → rs'[i]? = some ri' → rs'[j]? = some rj' →
+      ∀ (i j : Nat) (ri rj ri' rj' : Rect α), rs[i]? = some ri → rs[j]? = some rj → rs'[i]? = some ri' → rs'[j]? = some rj' →
         ri'.cx - rj'.cx = sx * (ri.cx - rj.cx) ∧ ri'.cy - rj'.cy = sy * (ri.cy - rj.cy) := by
   obtain ⟨sx, sy, tx, ty, hsx, hsy, hfl, rfl⟩ := h
   refine ⟨by simp, ?_, sx, sy, hsx, hsy, hfl, ?_⟩
@@ -338,10 +341,10 @@ theorem rigid_shapes_offsets (rs rs' : List (Rect α)) (fl : Bool) (h : RigidIma
 /-- The same at the level of `extract_solution`: in every returned netlist, the module at the position of a
     movable hard module is a rigid image of it with the reported centre as centroid; every other module keeps its
     rectangles untouched. -/
-theorem extract_hard_rigid (ans : Answer α) (εA thr : α) (mods : List (Module α)) (cells : List (Rect α))
-    (al : List (RectAlloc α)) (ms : List (Module α)) (h : extractSolution ans εA thr mods cells = .ok (al, ms)) :
+theorem extract_hard_rigid (ans : Answer α) (εA thr : α) (mods : List (Glb.Module α)) (cells : List (Rect α))
+    (al : List (RectAlloc α)) (ms : List (Glb.Module α)) (h : extractSolution ans εA thr mods cells = .ok (al, ms)) :
     ms.length = mods.length ∧
-    ∀ i m m', mods[i]? = some m → ms[i]? = some m' →
+    ∀ (i : Nat) (m m' : Glb.Module α), mods[i]? = some m → ms[i]? = some m' →
       (m.hard = true → m.fixed = false → RigidImage m.rects m'.rects m.flip ∧ IsCentroid m'.rects m'.cx m'.cy) ∧
       (¬(m.hard = true ∧ m.fixed = false) → m'.rects = m.rects) := by
   obtain ⟨_, h2⟩ := extractSolution_ok ans εA thr mods cells al ms h
@@ -385,19 +388,21 @@ theorem glbLoop_invariant (solve : State α → Option (Answer α)) (mustRefine 
   | zero => simp [glbLoop] at h
   | succ fuel ih =>
     unfold glbLoop at h
-    split at h
-    · split at h
-      · split at h
-        · split at h
-          · exact absurd h (by simp)
-          · rename_i s' hs'
-            exact ih _ _ (hopt _ _ (hrefine s hs) hs') h
-        · simp only [Option.some.injEq] at h; subst h; exact hs
-      · split at h
-        · exact absurd h (by simp)
-        · rename_i s' hs'
-          exact ih _ _ (hopt _ _ hs hs') h
-    · simp only [Option.some.injEq] at h; subst h; exact hs
+    by_cases hc : (match maxIter with | none => true | some k => decide (n ≤ k)) = true
+    · rw [if_pos hc] at h
+      by_cases h1 : 1 < n
+      · rw [if_pos h1] at h
+        by_cases hm : mustRefine s.1 = true
+        · rw [if_pos hm] at h
+          cases ho : optimizeStep solve εA thr (refine s.1, s.2) with
+          | none => simp only [ho] at h; exact absurd h (by simp)
+          | some s' => simp only [ho] at h; exact ih _ _ (hopt _ _ (hrefine s hs) ho) h
+        · rw [if_neg hm] at h; simp only [Option.some.injEq] at h; subst h; exact hs
+      · rw [if_neg h1] at h
+        cases ho : optimizeStep solve εA thr s with
+        | none => simp only [ho] at h; exact absurd h (by simp)
+        | some s' => simp only [ho] at h; exact ih _ _ (hopt _ _ hs ho) h
+    · rw [if_neg hc] at h; simp only [Option.some.injEq] at h; subst h; exact hs
 
 /-- Feasibility of the cells through the whole loop: if the initial allocation's cells are pairwise `R`-related
     and all satisfy `Q` (non-overlapping, inside the die), and `refine` keeps that (the allocation model's
@@ -423,10 +428,10 @@ section Examples
 
 /-- two offered cells; `S` soft, `F` fixed (owns cell 1), `H` hard, flippable, two rectangles. -/
 def exCells : List (Rect ℚ) := [⟨1, 1, 2, 2, "_", false, false, .nopoly⟩, ⟨3, 1, 2, 2, "_", true, false, .nopoly⟩]
-def exF : Module ℚ := ⟨"F", true, true, false, 3, 1, [⟨3, 1, 2, 2, "_", true, true, .nopoly⟩]⟩
-def exH : Module ℚ := ⟨"H", true, false, true, 1, 1,
+def exF : Glb.Module ℚ := ⟨"F", true, true, false, 3, 1, [⟨3, 1, 2, 2, "_", true, true, .nopoly⟩]⟩
+def exH : Glb.Module ℚ := ⟨"H", true, false, true, 1, 1,
   [⟨1, 1, 1, 1, "_", false, true, .nopoly⟩, ⟨2, 1, 1, 1, "_", false, true, .nopoly⟩]⟩
-def exMods : List (Module ℚ) := [⟨"S", false, false, false, 1, 1, []⟩, exF, exH]
+def exMods : List (Glb.Module ℚ) := [⟨"S", false, false, false, 1, 1, []⟩, exF, exH]
 def exAns : Answer ℚ where
   a := fun n c => if n = "F" then (if c = 1 then 1 else 0) else if c = 0 then (if n = "S" then 1/2 else 1/4) else 0
   x := fun n => if n = "F" then 3 else if n = "H_0" then 2 else if n = "H_1" then 1 else 1
